@@ -659,6 +659,69 @@ def different_shapes_on_exclusive_types(rng, doc, s):
     return True
 
 
+@operator("OverlappingFieldsCanBeMergedChecker")
+def conflict_between_object_and_interface_parents(rng, doc, s):
+    """`... on Dog { k: nickname } ... on Pet { k: name }`: an object type and an interface it implements
+    do not exclude each other, so equal return types do not make the two fields mergeable."""
+    cands = []
+    for sels, scope, owner in walk_selection_lists(doc, s):
+        st = s.types.get(scope)
+        if st is None or st.kind not in ("interface", "union", "object"):
+            continue
+        for iface in s.types.values():
+            if iface.kind != "interface":
+                continue
+            for oname in s.possible_types(iface.name):
+                if oname not in s.possible_types(scope) and oname != scope:
+                    continue
+                if scope != iface.name and iface.name not in [scope] and not (set(s.possible_types(iface.name)) & set(s.possible_types(scope))):
+                    continue
+                o = s.types[oname]
+                for h in iface.fields:
+                    for g in o.fields:
+                        if g.name != h.name and g.type == h.type and not getattr(g, "homonym", False):
+                            cands.append((sels, o, g, iface, h))
+                    # the same field with other argument values
+                    if h.args and o.field(h.name) is not None:
+                        cands.append((sels, o, h, iface, h))
+    if not cands:
+        return None
+    sels, o, g, iface, h = rng.choice(cands)
+    if g is h:
+        a0 = rng.choice(h.args)
+        v1 = v2 = None
+        for _ in range(20):
+            v1, v2 = _sg(rng, s).input_value_for(a0.type, allow_null=False), _sg(rng, s).input_value_for(a0.type, allow_null=False)
+            if opgen.value_text(v1) != opgen.value_text(v2):
+                break
+        else:
+            return None
+        subsel = None if _is_leaf(s, h.type) else [opgen.OField("__typename", S.unwrap(h.type))]
+        fa = opgen.OField(h.name, o.name, "viaBoth", _required_args(rng, s, h), [], subsel)
+        fb = opgen.OField(h.name, iface.name, "viaBoth", _required_args(rng, s, h), [], copy.deepcopy(subsel))
+        fa.args[a0.name], fb.args[a0.name] = v1, v2
+        sels.extend([opgen.OInline(o.name, [fa]), opgen.OInline(iface.name, [fb])])
+        return True
+
+    def mk(f, parent):
+        sub = None
+        if not _is_leaf(s, f.type):
+            sub = [opgen.OField("__typename", S.unwrap(f.type))]
+        return opgen.OField(f.name, parent, "viaBoth", _required_args(rng, s, f), [], sub)
+
+    a = opgen.OInline(o.name, [mk(g, o.name)])
+    b = opgen.OInline(iface.name, [mk(h, iface.name)])
+    pair = [a, b]
+    if rng.random() < 0.5:
+        pair.reverse()
+    if rng.random() < 0.3:
+        name = "ViaIface%d" % len(doc.fragments)
+        doc.fragments[name] = opgen.OFragment(name, iface.name, b.selection)
+        pair = [opgen.OSpread(name) if x is b else x for x in pair]
+    sels.extend(pair)
+    return True
+
+
 def _lists_under_wrapped_fields(doc, s):
     """Selection lists of fields whose declared type is a list or non-null wrapper."""
     out = []
